@@ -33,6 +33,11 @@ func fileExists(name string) (bool, error) {
 	if info.IsDir() {
 		return false, fmt.Errorf("log: directory found at %s", name)
 	}
+	if info.Size() < 16 {
+		// smaller than segment header: createSegment was interrupted
+		// before initialising it. report missing, so that it is recreated
+		return false, nil
+	}
 	return true, nil
 }
 
